@@ -248,8 +248,19 @@ def trace_validate(module, records, cfg=None, timeout=600, work=None, heap="4g",
     env = {"TRACE": path}
     if env_extra:
         env.update(env_extra)
-    res = run_tlc(module, cfg=cfg, workers=1, timeout=timeout, env_extra=env, work=work, heap=heap,
-                  java_opts="-Xss1g -Dtlc2.tool.queue.IStateQueue=StateDeque", allow_violation=True)
+    try:
+        res = run_tlc(module, cfg=cfg, workers=1, timeout=timeout, env_extra=env, work=work, heap=heap,
+                      java_opts="-Xss1g -Dtlc2.tool.queue.IStateQueue=StateDeque", allow_violation=True)
+    except ToolError as e:
+        # a behaviour spec whose initial condition no logged fact satisfies (e.g. one file logged with two contradictory parse
+        # results) has no initial state: TLC stops before the register is set. The trace is rejected at its first event.
+        if "TLCGet(7) was undefined" in str(e) and "0 states generated" in str(e):
+            res = TlcResult()
+            res.out = str(e)
+            res.bad = []
+            os.unlink(path)
+            return False, 0, res
+        raise
     matched = None
     bad = []
     seen_bad = False
